@@ -190,6 +190,65 @@ def differential_only(ctx, prog, tier):
             ctx.count('traces')
 
 
+# ---------------------------------------------------------------------------
+# bodies of instance operations (self, param): the renderings must behave alike (differential, no reference needed)
+# ---------------------------------------------------------------------------
+
+def operation_bodies():
+    V, I, B = c04.V, c04.I, c04.B
+    SELF = ('self',)
+    SF = lambda n: ('field', SELF, n)
+    P = lambda n: ('param', n)
+    return [
+        [('delete', 'self'), ('return', I(1))],
+        [('return', B('+', SF('N'), P('k')))],
+        [c04.ASG(SF('N'), B('+', P('k'), I(3))), ('return', SF('N'))],
+        [('selfrom', 'many', 'as_', 'A', None, True),
+         ('foreach', 'a', 'as_', [c04.IF(B('==', V('a'), SELF), [('return', I(7))])], True), ('return', I(0))],
+        [c04.IF(('un', 'not_empty', SELF), [('return', ('un', 'cardinality', SELF))]), ('return', I(0))],
+        [('create', 'n', 'A'), c04.ASG(('field', V('n'), 'N'), SF('N')), ('delete', 'self'), ('return', ('field', V('n'), 'N'))],
+        [c04.ASG(V('me'), SELF), ('return', ('field', V('me'), 'N'))],
+    ]
+
+
+def operation_outcome(text):
+    import xtuml
+    from bridgepoint import ooaofooa
+    from mc.props import c15
+    bp = c15.build_bp_model(dict((s, 0) for s in c15.SLOTS))
+    o_tfr = bp.select_any('O_TFR', xtuml.where_eq(Name='op'))
+    o_tfr.Action_Semantics_internal = text
+    dom = ooaofooa.mk_component(bp)
+    insts = [dom.new('A', N=2), dom.new('A', N=0)]
+    try:
+        with core.time_limit(10.0):
+            value = insts[0].op(k=1)
+    except core.Timeout:
+        return ['timeout']
+    except Exception as e:
+        return ['raised', type(e).__name__]
+    return ['returned', repr(value), [[i.N, i.Name] for i in dom.select_many('A')]]
+
+
+def operation_task(ctx, stmts):
+    p = A.print_program(stmts)
+    kinds = sorted(set(t.kw for t in p.toks if t.kw))
+    base = operation_outcome(A.assemble(p, A.Layout())[0])
+    rs = [dict((k, st) for k in kinds) for st in STYLES[1:]] + [{k: st} for k in kinds for st in ('upper', 'cap')]
+    for r in rs:
+        ctx.count('interpret_runs')
+        ctx.count('operation_runs')
+        text = A.assemble(p, layout_for(r))[0]
+        got = operation_outcome(text)
+        if got != base:
+            ctx.violation('c08:interpret:operation-differs-from-lower-case', dict(kind='operation', stmts=stmts, rendering=r),
+                          'operation body %r behaves differently from its lower-case rendering: %s vs %s' % (text, got[:2], base[:2]),
+                          base, got)
+        else:
+            ctx.count('traces')
+            ctx.distinct('nontrivial', ('operation', repr(stmts), repr(sorted(r.items()))))
+
+
 def prebuild_available():
     try:
         from mc.refs import prebuildhost      # noqa
@@ -201,13 +260,15 @@ def prebuild_available():
 def prebuild_task(ctx, task):
     tier, items = task
     from mc.refs import prebuildhost as H
-    for name, stmts in items:
+    for item in items:
+        name, stmts = item[0], item[1]
+        home = item[2] if len(item) > 2 else 'function'
         p = A.print_program(stmts)
         kinds = set(t.kw for t in p.toks if t.kw)
         base_text, _ = A.assemble(p, A.Layout())
         try:
             with core.time_limit(30):
-                base = H.canonical_prebuild_dump(base_text)
+                base = H.canonical_prebuild_dump(base_text, home=home)
         except Exception as e:
             ctx.count('prebuild_skipped')      # not a supported / name-resolved program for the host
             continue
@@ -215,10 +276,10 @@ def prebuild_task(ctx, task):
         for r in rs:
             text, _ = A.assemble(p, layout_for(r))
             ctx.count('prebuild_runs')
-            case = dict(kind='prebuild', name=name, stmts=stmts, rendering=r)
+            case = dict(kind='prebuild', name=name, stmts=stmts, rendering=r, home=home)
             try:
                 with core.time_limit(30):
-                    got = H.canonical_prebuild_dump(text)
+                    got = H.canonical_prebuild_dump(text, home=home)
             except Exception as e:
                 ctx.violation('c08:prebuild:%s' % type(e).__name__, case,
                               'prebuild of %r fails although its lower-case rendering is translated: %s' % (text, e), None, str(e))
@@ -260,6 +321,17 @@ def prebuild_corpus(tier='quick'):
         progs.append(('loose_handle_%s' % op, [('selfrom', 'any', 'a', 'A', None, True), c04.ASG(V('t'), B(op, V('a'), T))]))
         progs.append(('loose_right_%s' % op, [c04.ASG(V('i'), I(1)), c04.ASG(V('t'), B(op, T, V('i')))]))
         progs.append(('loose_nested_%s' % op, [c04.ASG(V('i'), I(1)), c04.ASG(V('t'), B('or', B(op, V('i'), V('i')), ('un', 'not', V('i'))))]))
+    # self in every position, in the homes that have one
+    SELF = ('self',)
+    ph = ('t', 'next')
+    sel = ('selfrom', 'any', 'o', 'A', None, True)
+    for home in ('operation', 'attribute'):
+        progs.append(('self_relate', [sel, ('relate', 'self', 'o', 'R2', ph, None)], home))
+        progs.append(('self_var_then_relate', [c04.ASG(V('x'), SELF), sel, ('relate', 'self', 'o', 'R2', ph, None)], home))
+        progs.append(('self_unrelate', [sel, c04.ASG(V('n'), ('field', SELF, 'Num')), ('unrelate', 'o', 'self', 'R2', ('t', 'prev'), None)], home))
+        progs.append(('self_delete', [c04.ASG(V('x'), SELF), ('delete', 'self')], home))
+        progs.append(('self_nav', [('selrel', 'many', 'bs', SELF, [('B', 'R1', None)], None), c04.ASG(V('x'), SELF),
+                                   ('relate', 'self', 'x', 'R2', ph, None)], home))
     return progs
 
 
@@ -270,6 +342,8 @@ def run(ctx):
     ctx.pmap(parse_task, [(ctx.tier, c) for c in chunks(progs, 8)])
     corpus = interpret_corpus(ctx.tier)
     ctx.pmap(interpret_task, [(ctx.tier, c) for c in chunks(corpus, 10)])
+    ctx.pmap(operation_task, operation_bodies())
+    ctx.require(ctx.n('operation_runs') >= 50, 'too few operation-body renderings (%d)' % ctx.n('operation_runs'))
     if prebuild_available():
         ctx.pmap(prebuild_task, [(ctx.tier, c) for c in chunks(prebuild_corpus(ctx.tier), 6)])
         ctx.require(ctx.n('prebuild_runs') >= 300, 'too few prebuild renderings (%d)' % ctx.n('prebuild_runs'))
@@ -306,6 +380,12 @@ def replay(ctx, case):
     elif case['kind'] == 'interpret':
         c04.check_program(ctx, case['prog'], 'case', layout=layout_for(case['rendering']), sigprefix='c08:interpret',
                           extra_case=dict(kind='interpret', rendering=case['rendering']))
+    elif case['kind'] == 'operation':
+        p = A.print_program(case['stmts'])
+        base = operation_outcome(A.assemble(p, A.Layout())[0])
+        got = operation_outcome(A.assemble(p, layout_for(case['rendering']))[0])
+        if got != base:
+            ctx.violation('c08:interpret:operation-differs-from-lower-case', case, 'behaves differently from its lower-case rendering', base, got)
     elif case['kind'] == 'interpret-diff':
         p = A.print_program(list(case['prog']))
         base = real_outcome(A.assemble(p, A.Layout())[0])
@@ -313,7 +393,7 @@ def replay(ctx, case):
         if got != base:
             ctx.violation('c08:interpret:differs-from-lower-case', case, 'behaves differently from its lower-case rendering', base, got)
     elif case['kind'] == 'prebuild':
-        prebuild_task(ctx, ('thorough', [(case['name'], case['stmts'])]))
+        prebuild_task(ctx, ('thorough', [(case['name'], case['stmts'], case.get('home', 'function'))]))
 
 
 def coverage(ctx):
